@@ -131,7 +131,13 @@ class ImplWorld:
                 kw["kind"] = op["kind"]
             via = op.get("via")
             if via == "copy_to":
-                src.copy_to(tgt, before=kw.get("before"), deep=bool(op.get("deep")))
+                # arguments that equal the documented default are left out, so that the default itself is exercised
+                ckw = {}
+                if kw.get("before") is not None:
+                    ckw["before"] = kw["before"]
+                if op.get("deep"):
+                    ckw["deep"] = True
+                src.copy_to(tgt, **ckw)
             else:
                 tgt.add(src, **kw)
         elif k == "w.addtree":
@@ -150,15 +156,17 @@ class ImplWorld:
             if not op["p"]:
                 tgt = t
             if not op["sp"] and op.get("tree_api", True):
-                self.trees[op["st"]].copy_to(tgt, deep=op.get("deep", True))
+                deep = op.get("deep", True)
+                self.trees[op["st"]].copy_to(tgt, **({} if deep is True else {"deep": deep}))     # Tree.copy_to: deep=True
             else:
-                self.node(op["st"], op["sp"]).copy_to(tgt, add_self=False, deep=op.get("deep", False))
+                deep = op.get("deep", False)
+                self.node(op["st"], op["sp"]).copy_to(tgt, add_self=False, **({} if deep is False else {"deep": deep}))   # Node.copy_to: deep=False
         elif k == "w.copy":
             new = self.trees[op["st"]].copy()
             self.trees.append(new)
             self.hooks.append(None)
         elif k == "w.nodecopy":
-            new = self.node(op["st"], op["sp"]).copy(add_self=op.get("self", True))
+            new = self.node(op["st"], op["sp"]).copy(**({} if op.get("self", True) is True else {"add_self": op["self"]}))   # add_self=True
             self.trees.append(new)
             self.hooks.append(None)
         elif k == "w.move":
@@ -175,7 +183,12 @@ class ImplWorld:
                 kw["before"] = b
             n.move_to(to, **kw)
         elif k == "w.remove":
-            self.node(op["t"], op["n"]).remove(keep_children=op.get("keep", False), with_clones=op.get("clones", False))
+            rkw = {}
+            if op.get("keep", False):
+                rkw["keep_children"] = op["keep"]
+            if op.get("clones", False):
+                rkw["with_clones"] = op["clones"]
+            self.node(op["t"], op["n"]).remove(**rkw)      # keep_children=False, with_clones=False
         elif k == "w.removechildren":
             if not op["n"] and op.get("tree_api", True):
                 t.clear()
@@ -183,7 +196,7 @@ class ImplWorld:
                 self.node(op["t"], op["n"]).remove_children()
         elif k == "w.sort":
             key = op.get("key", "name")
-            kw = {"reverse": op.get("reverse", False)}
+            kw = {"reverse": True} if op.get("reverse", False) else {}      # reverse=False
             if key != "name":
                 bij = op["_bij"]
 
@@ -198,11 +211,12 @@ class ImplWorld:
             elif op.get("key_explicit"):
                 kw["key"] = lambda node: node.name
             if not op["n"] and op.get("tree_api", True):
-                if "deep" in op:
+                if "deep" in op and op["deep"] is not True:     # Tree.sort: deep=True
                     kw["deep"] = op["deep"]
                 t.sort(**kw)
             else:
-                kw["deep"] = op.get("deep", False)
+                if op.get("deep", False):                       # Node.sort_children: deep=False
+                    kw["deep"] = op["deep"]
                 self.node(op["t"], op["n"]).sort_children(**kw)
         elif k == "w.setdata":
             n = self.node(op["t"], op["n"])
@@ -247,11 +261,11 @@ class ImplWorld:
                     d = self.shared_meta.setdefault(op["shared"], {})
                     d.clear()
                     d.update(vals)
-                    n.update_meta(d, replace=op.get("replace", False))
+                    n.update_meta(d, **({"replace": True} if op.get("replace", False) else {}))
                     if d != vals:
                         raise AssertionError("update_meta changed the caller's dict")
                 else:
-                    n.update_meta(vals, replace=op.get("replace", False))
+                    n.update_meta(vals, **({"replace": True} if op.get("replace", False) else {}))
         else:
             raise AssertionError(k)
 
